@@ -1,5 +1,6 @@
 """Stub of xdsl.dialects.builtin (types and attributes as plain records)."""
 from xdsl.ir import Attribute, Data, Operation, ParametrizedAttribute, SSAValue, TypeAttribute
+from xdsl.utils.exceptions import VerifyException
 
 DYNAMIC_INDEX = -9223372036854775808  # xdsl 0.70: MLIR kDynamic (int64 min)
 
@@ -38,6 +39,20 @@ class IntegerType(FixedBitwidthType):
     @property
     def bitwidth(self):
         return self.width.data
+
+    def value_range(self):
+        """(min, max+1) as xdsl: signless = union of the signed and the unsigned range"""
+        w = self.width.data
+        if self.signedness == 1:
+            return (-(1 << (w - 1)), 1 << (w - 1))
+        if self.signedness == 2:
+            return (0, 1 << w)
+        return (-(1 << (w - 1)), 1 << w)
+
+    def verify_value(self, value):
+        lo, hi = self.value_range()
+        if not (lo <= value < hi):
+            raise VerifyException("integer value out of range for type")
 
     def __eq__(self, other):
         return isinstance(other, IntegerType) and self.width.data == other.width.data
@@ -254,8 +269,14 @@ class TensorType(TypeAttribute, ShapedType, ContainerType):
     def get_shape(self):
         return tuple(s.data for s in self.shape.data)
 
+    def get_num_dims(self):
+        return len(self.shape.data)
+
     def get_element_type(self):
         return self.element_type
+
+    def __eq__(self, other):
+        return isinstance(other, TensorType) and self.element_type == other.element_type and self.get_shape() == other.get_shape()
 
 
 class UnrealizedConversionCastOp(Operation):
@@ -285,3 +306,15 @@ class SymbolRefAttr(Attribute):
 
     def string_value(self):
         return self.root_reference.data
+
+
+class BytesAttr(Data):
+    pass
+
+
+class DenseIntOrFPElementsAttr(Attribute):
+    """placeholder: constant contents are handled by the bounded stand-in of transform_constant"""
+
+
+class AnyDenseElement:
+    pass
